@@ -355,7 +355,7 @@ T('C05', 'mwem-sigma-respelled', [(MWEM, "        sigma = np.sqrt(0.5 / (alpha*r
 
 
 # ------------------------------------------------------------------ every property: the reformatted tree must give the same verdict
-for _p in ['C01', 'C02', 'C04', 'C05', 'C06', 'C07', 'C08', 'C09', 'C10', 'C13', 'C14', 'C15', 'C16', 'C18', 'C19', 'C20']:
+for _p in ['C11', 'C12', 'C01', 'C02', 'C04', 'C05', 'C06', 'C07', 'C08', 'C09', 'C10', 'C13', 'C14', 'C15', 'C16', 'C18', 'C19', 'C20']:
     MUTANTS.append({'prop': _p, 'id': 'reformatted-tree', 'kind': 'T', 'edits': 'REFORMAT'})
 K('C08', 'setup-stale-marginals', [(INF, "        model.potentials = CliqueVector.zeros(self.domain, model.cliques)\n        model.potentials.combine(self.structural_zeros)", "        model.potentials = CliqueVector.zeros(self.domain, model.cliques)\n        model.marginals = model.belief_propagation(model.potentials)\n        model.potentials.combine(self.structural_zeros)")], 'pair-at-exit')
 T('C08', 'setup-marginals-in-sync', [(INF, "            model.potentials.combine(self.model.potentials)\n        self.model = model  ", "            model.potentials.combine(self.model.potentials)\n        model.marginals = model.belief_propagation(model.potentials)\n        self.model = model  ")])
@@ -437,3 +437,24 @@ T('C12', 'dependencies-as-set-comprehension', [(JT, "        for m1 in messages:
 K('C12', 'dependencies-comprehension-weakened', [(JT, "        for m1 in messages:\n            for m2 in messages:\n                if m1[1] == m2[0] and m1[0] != m2[1]:\n                    edges.add( (m1, m2) )\n", "        edges = {(m1, m2) for m1 in messages for m2 in messages if m1[1] == m2[0]}\n")], 'schedule')
 T('C12', 'weighted-edges-from-generator', [(JT, "        for c1, c2 in itertools.combinations(cliques, 2):\n            wgt = len(set(c1) & set(c2))\n            complete.add_edge(c1, c2, weight=-wgt)\n", "        complete.add_weighted_edges_from((c1, c2, -len(set(c1) & set(c2))) for c1, c2 in itertools.combinations(cliques, 2))\n")])
 K('C12', 'weighted-edges-positive-weight', [(JT, "        for c1, c2 in itertools.combinations(cliques, 2):\n            wgt = len(set(c1) & set(c2))\n            complete.add_edge(c1, c2, weight=-wgt)\n", "        complete.add_weighted_edges_from((c1, c2, len(set(c1) & set(c2))) for c1, c2 in itertools.combinations(cliques, 2))\n")], 'tree-connected')
+
+# ------------------------------------------------------------------ C11 (generator of synthetic records; partial claim)
+K('C11', 'rows-rounded-default', [(GM, "        total = int(self.total) if rows is None else rows", "        total = int(round(self.total)) if rows is None else rows")], 'rows-default')
+K('C11', 'extra-units-with-replacement', [(GM, "                idx = np.random.choice(counts.size, extra, False, frac / frac.sum())", "                idx = np.random.choice(counts.size, extra, True, frac/frac.sum())")], 'count-conservation')
+K('C11', 'extra-units-uniform', [(GM, "                idx = np.random.choice(counts.size, extra, False, frac / frac.sum())", "                idx = np.random.choice(counts.size, extra, False)")], 'count-conservation')
+K('C11', 'counts-not-rescaled', [(GM, "            counts *= total / counts.sum()\n", "")], 'count-conservation')
+K('C11', 'sample-wrong-size', [(GM, "                return np.random.choice(counts.size, total, True, probas)", "                return np.random.choice(counts.size, counts.size, True, probas)")], 'count-conservation')
+K('C11', 'marginal-axes-swapped', [(GM, "            marg = self.project(proj + (col,)).datavector(flatten=False)", "            marg = self.project((col,) + proj).datavector(flatten=False)")], 'site-pairing')
+K('C11', 'groupby-sorted-keys', [(GM, "                df = df.groupby(list(proj), group_keys=False).apply(foo)", "                df = df.groupby(sorted(proj), group_keys=False).apply(foo)")], 'site-pairing')
+K('C11', 'group-asked-for-total', [(GM, "                vals = synthetic_col(marg[idx], group.shape[0])", "                vals = synthetic_col(marg[idx], total)")], 'site-pairing')
+K('C11', 'no-conditioning', [(GM, "            proj = tuple(relevant)\n", "            proj = ()\n")], 'conditioning')
+K('C11', 'used-not-recorded', [(GM, "            used.add(col)\n", "")], 'conditioning')
+K('C11', 'values-one-based', [(GM, "            vals = np.repeat(np.arange(counts.size), integ)", "            vals = np.repeat(np.arange(1, counts.size+1), integ)")], 'support')
+K('C11', 'flattened-marginal', [(GM, "        marg = self.project([col]).datavector(flatten=False)\n        df.loc[:,col]", "        marg = self.project([col]).datavector()\n        df.loc[:,col]")], 'site-pairing')
+T('C11', 'choice-keywords', [(GM, "                idx = np.random.choice(counts.size, extra, False, frac / frac.sum())", "                idx = np.random.choice(counts.size, size=extra, replace=False, p=frac/frac.sum())")])
+T('C11', 'rescale-not-in-place', [(GM, "            counts *= total / counts.sum()\n", "            counts = counts * total / counts.sum()\n")])
+T('C11', 'rows-if-else', [(GM, "        total = int(self.total) if rows is None else rows", "        if rows is None:\n            total = int(self.total)\n        else:\n            total = rows")])
+T('C11', 'group-len', [(GM, "                vals = synthetic_col(marg[idx], group.shape[0])", "                vals = synthetic_col(marg[idx], len(group))")])
+T('C11', 'condition-on-all-generated', [(GM, "            proj = tuple(relevant)\n", "            proj = tuple(used)\n")])
+T('C11', 'generator-locals-renamed', [(GM, "            frac, integ = np.modf(counts)\n            integ = integ.astype(int)\n            extra = total - integ.sum()\n            if extra > 0:\n                idx = np.random.choice(counts.size, extra, False, frac / frac.sum())\n                integ[idx] += 1\n            vals = np.repeat(np.arange(counts.size), integ)",
+   "            remainder, whole = np.modf(counts)\n            whole = whole.astype(int)\n            missing = total - whole.sum()\n            if missing > 0:\n                lucky = np.random.choice(counts.size, missing, False, remainder/remainder.sum())\n                whole[lucky] += 1\n            vals = np.repeat(np.arange(counts.size), whole)")])
